@@ -252,3 +252,95 @@ func c02NumBound(c *Ctx, idx int) {
 		}
 	}
 }
+
+// offender-position: one element (or argument) of the wrong type at every
+// position of arrays of several size classes, for every builtin that takes a
+// homogeneous array or a variadic list: an early exit, a fast path for a size
+// class or a sampled check must still report invalid-type.
+var c02OffFuncs = []struct{ tmpl, good string }{
+	{"sum(%s)", "num"}, {"avg(%s)", "num"}, {"max(%s)", "num"}, {"min(%s)", "num"}, {"max(%s)", "str"}, {"min(%s)", "str"}, {"sort(%s)", "num"}, {"sort(%s)", "str"}, {"join(',', %s)", "str"},
+	{"sort_by(%s, &k)", "recnum"}, {"sort_by(%s, &k)", "recstr"}, {"max_by(%s, &k)", "recnum"}, {"min_by(%s, &k)", "recstr"}, {"group_by(%s, &k)", "recstr"}, {"from_items(%s)", "pair"}, {"zip(%s, %s)", "arrarg"}, {"merge(%s)", "objargs"}, {"zip(%s)", "arrargs"},
+	{"map(&abs(@), %s)", "num"}, {"%s[*].abs(@)", "num"}, {"%s[?abs(@) > `0`]", "num"}, {"length(%s[*].length(@))", "str"},
+}
+
+var c02OffSizes = []int{1, 2, 3, 5, 12, 13, 17, 32, 33, 65}
+
+func c02OffN(c *Ctx) int { return len(c02OffFuncs) * len(c02OffSizes) }
+
+func c02Offender(c *Ctx, idx int) {
+	f := c02OffFuncs[idx%len(c02OffFuncs)]
+	n := c02OffSizes[idx/len(c02OffFuncs)]
+	good := func(i int) ref.V {
+		switch f.good {
+		case "num":
+			return gen.IntV(int64((i*7)%11 + 1))
+		case "str":
+			return fmt.Sprintf("s%02d", (i*7)%11)
+		case "recnum", "recstr":
+			o := ref.NewObj()
+			o.Set("id", gen.IntV(int64(i)))
+			if f.good == "recnum" {
+				o.Set("k", gen.IntV(int64((i*7)%11)))
+			} else {
+				o.Set("k", fmt.Sprintf("s%02d", (i*7)%11))
+			}
+			return o
+		case "pair":
+			return &ref.Arr{E: []ref.V{fmt.Sprintf("k%d", i), gen.IntV(int64(i))}}
+		case "arrarg", "arrargs":
+			return &ref.Arr{E: []ref.V{gen.IntV(int64(i))}}
+		case "objargs":
+			o := ref.NewObj()
+			o.Set(fmt.Sprintf("k%d", i), gen.IntV(int64(i)))
+			return o
+		}
+		return nil
+	}
+	bads := []ref.V{nil, true, "x", gen.IntV(3), &ref.Arr{E: []ref.V{}}, ref.NewObj()}
+	positions := []int{0, 1, n / 2, n - 2, n - 1}
+	seen := map[int]bool{}
+	for _, p := range positions {
+		if p < 0 || p >= n || seen[p] {
+			continue
+		}
+		seen[p] = true
+		for bi, bad := range bads {
+			elems := make([]ref.V, n)
+			for i := range elems {
+				elems[i] = good(i)
+			}
+			switch f.good {
+			case "recnum", "recstr":
+				o := ref.NewObj()
+				o.Set("id", gen.IntV(int64(p)))
+				o.Set("k", bad)
+				elems[p] = o
+				if bi == 0 && p%2 == 1 {
+					elems[p] = bad // the element itself is not an object
+				}
+			case "pair":
+				elems[p] = &ref.Arr{E: []ref.V{bad, gen.IntV(1)}}
+			default:
+				elems[p] = bad
+			}
+			doc := ref.NewObj()
+			var text string
+			if f.good == "objargs" || f.good == "arrargs" {
+				args := make([]string, n)
+				for i := range elems {
+					k := fmt.Sprintf("a%d", i)
+					doc.Set(k, elems[i])
+					args[i] = k
+				}
+				text = strings.Replace(f.tmpl, "%s", strings.Join(args, ", "), 1)
+			} else {
+				doc.Set("xs", &ref.Arr{E: elems})
+				text = strings.ReplaceAll(f.tmpl, "%s", "xs")
+			}
+			m, _ := c.CheckModel("C02", text, doc, ref.ToGo(doc, ref.JSONNumber), CheckOpts{Compiled: bi == 0, Features: map[string]string{"stream": "offender-position", "n": fmt.Sprint(n), "position": fmt.Sprint(p)}})
+			if !m.Unspec {
+				c.Nontrivial(text, fmt.Sprint(n, p, bi))
+			}
+		}
+	}
+}
